@@ -58,7 +58,8 @@ class C04(Suite):
                     plan = [{"kind": "read", "idx": i, "n": n} for i in range(L) for n in range(1, L - i + 1)]
                     # the in-process API lets the count be left out ("the rest of the tag from index i")
                     plan += [{"kind": "read", "idx": i, "n": L - i, "elide": True} for i in range(L)]
-                    yield {"budget": B, "tags": [{"name": "T", "type": ty, "len": L, "addr": None}], "plan": plan}
+                    yield {"budget": B, "tags": [{"name": "T", "type": ty, "len": L, "addr": None}], "plan": plan,
+                           "via_client": k % 2 == 0}     # every other device: requests built by cpppo's own client methods
         # write tilings: all compositions of n <= 6 (quick: <= 4)
         nmax = 4 if tier == "quick" else 6
         for siz, tys in SIZED.items():
@@ -69,7 +70,8 @@ class C04(Suite):
                         for n in range(1, nmax + 1):
                             for comp in compositions(n):
                                 plan.append({"kind": "write", "idx": idx, "n": n, "comp": comp})
-                        yield {"budget": 488, "tags": [{"name": "T", "type": ty, "len": L, "addr": None}], "plan": plan}
+                        yield {"budget": 488, "tags": [{"name": "T", "type": ty, "len": L, "addr": None}], "plan": plan,
+                               "via_client": idx == 2}
         # random large transfers at the default budget
         for _ in range(20 if tier == "quick" else 400):
             siz = rng.choice([1, 2, 4, 8])
@@ -80,7 +82,7 @@ class C04(Suite):
                 i = rng.randrange(L)
                 plan.append({"kind": "read", "idx": i, "n": rng.randint(1, L - i)})
             yield {"budget": rng.choice([488, 487, 489, 1000]),
-                   "tags": [{"name": "T", "type": ty, "len": L, "addr": None}], "plan": plan}
+                   "tags": [{"name": "T", "type": ty, "len": L, "addr": None}], "plan": plan, "via_client": True}
 
     # -- the client loop against the real code --------------------------------------------------
     def impl(self, c):
@@ -110,6 +112,8 @@ class C04(Suite):
                         r = {"op": "rf", "path": [["s", "T"], ["e", t["idx"]]], "n": t["n"], "off": off}
                         if t.get("elide"):
                             r.update(direct=True, elide_n=True)
+                        elif c.get("via_client") and t["n"] >= 1:
+                            r["via_client"] = True
                         rep = do(r)
                         p = lg.parse_reply(bytes.fromhex(rep)) if rep not in ("X", "-") else None
                         if not p or p["status"] != 6:
@@ -122,7 +126,8 @@ class C04(Suite):
                     j = 0
                     for ln in t["comp"]:
                         do({"op": "wf", "path": [["s", "T"], ["e", t["idx"]]], "ty": code, "n": t["n"],
-                            "off": j * siz, "vals": [value(ty, stamp + q) for q in range(ln)]})
+                            "off": j * siz, "vals": [value(ty, stamp + q) for q in range(ln)],
+                            "via_client": bool(c.get("via_client"))})
                         stamp += ln
                         j += ln
                     do({"op": "rt", "path": [["s", "T"]], "n": L})
